@@ -66,14 +66,23 @@ def v2_doc(sc, work):
         doc["tracker"]["diffusion"] = float(fv["diffusion"])
     if fv["cont"]:
         doc["release"]["release_frequency"] = fv["freq"]
+    if fv.get("ibm"):          # a user IBM with its own instance variable (and, with xforce, scalar forcing as a further one)
+        extra = ["age"] + (["temp"] if fv.get("xforce") else [])
+        doc["state"]["instance_variables"] = {v: "float" for v in extra}
+        doc["state"]["default_values"] = {v: 0 for v in extra}
+        doc["ibm"] = dict(module=os.path.join(work, "age_ibm.py"), inc=2)
+        for v in extra:
+            doc["output"]["instance_variables"][v] = dict(encoding=dict(datatype="f8"), attributes=dict(long_name=v))
+        if fv.get("xforce"):
+            doc["forcing"]["extra_forcing"] = ["temp"]
     if fv["gridsec"] != "omitted":
         doc["grid"] = dict(module=sc.get("usermod") or "ladim.ROMS")
         if fv["gridsec"] == "explicit":
-            doc["grid"]["filename"] = os.path.join(work, first_file(sc))
+            doc["grid"]["filename"] = os.path.join(work, "grid_only.nc")
         if fv["subgrid"]:
             doc["grid"]["subgrid"] = list(sc["subgrid_v"])
     if fv["optsec"] == "present":
-        doc["ibm"] = dict()
+        doc.setdefault("ibm", dict())
         doc["warm_start"] = dict()
     if fv["pvars"]:
         pv = dict(release_time=dict(encoding=dict(datatype="f8"), attributes=dict(long_name="particle release time", units="seconds since reference_time")))
@@ -91,19 +100,27 @@ def v1_doc(sc, work):
     if fv["cont"]:
         pr["release_type"] = "continuous"
         pr["release_frequency"] = fv["freq"]
-    gf = dict(module=sc.get("usermod") or "ladim1.gridforce.ROMS", input_file=os.path.join(work, "f_*.nc" if fv["wildcard"] else first_file(sc)))
+    files = dict(particle_release_file=os.path.join(work, "r.rls"), output_file=os.path.join(work, "OUTNAME"))
+    where = files if fv.get("v1files") else None          # version 1 accepts the forcing / grid file names in its `files` section as well
+    gf = dict(module=sc.get("usermod") or "ladim1.gridforce.ROMS")
+    (where if where is not None else gf)["input_file"] = os.path.join(work, "f_*.nc" if fv["wildcard"] else first_file(sc))
     if fv["gridsec"] == "explicit":
-        gf["gridfile"] = os.path.join(work, first_file(sc))
+        (where if where is not None else gf)["gridfile"] = os.path.join(work, "grid_only.nc")
     if fv["subgrid"] and fv["gridsec"] != "omitted":
         gf["subgrid"] = list(sc["subgrid_v"])
-    ov = dict(outper=sc["dt"] * sc["ops"], format="NETCDF4", instance=["pid", "X", "Y", "Z"], particle=(["release_time"] + (["farmid"] if fv["extracol"] else [])) if fv["pvars"] else [],
+    extra = (["age"] + (["temp"] if fv.get("xforce") else [])) if fv.get("ibm") else []
+    if fv.get("xforce") and fv.get("ibm"):
+        gf["extra_forcing"] = ["temp"]
+    ov = dict(outper=sc["dt"] * sc["ops"], format="NETCDF4", instance=["pid", "X", "Y", "Z"] + extra, age=dict(ncformat="f8", long_name="age"), temp=dict(ncformat="f8", long_name="temp"), particle=(["release_time"] + (["farmid"] if fv["extracol"] else [])) if fv["pvars"] else [],
               pid=dict(ncformat="i4", long_name="pid"), X=dict(ncformat="f8", long_name="X"), Y=dict(ncformat="f8", long_name="Y"), Z=dict(ncformat="f8", long_name="Z"),
               release_time=dict(ncformat="f8", long_name="particle release time", units="seconds since reference_time"), farmid=dict(ncformat="i4", long_name="farm"))
     doc = dict(time_control=dict(start_time=iso(sc["start"]), stop_time=iso(sc["stop"]), **({"reference_time": iso(sc["ref"])} if fv.get("hasref") else {})),
-               files=dict(particle_release_file=os.path.join(work, "r.rls"), output_file=os.path.join(work, "OUTNAME")),
+               files=files,
                gridforce=gf, particle_release=pr, numerics=dict(dt=sc["dt"], advection=fv["adv"], diffusion=float(fv["diffusion"])), output_variables=ov)
     if fv["optsec"] == "present":
         doc["ibm"] = dict()
+    if fv.get("ibm"):
+        doc["ibm"] = dict(ibm_module=os.path.join(work, "age_ibm.py"), variables=extra, inc=2)
     return doc
 
 
@@ -124,6 +141,8 @@ def project(conf, work):
                 adv=conf["tracker"].get("advection", ""), diffusion=int(round(float(conf["tracker"].get("diffusion", 0)))),
                 cont=cont, freq=int(rel.get("release_frequency", 0)) if cont else 0, names=list(rel.get("names") or []),
                 state_pvars=sorted((conf.get("state") or {}).get("particle_variables") or {}),
+                state_ivars=sorted((conf.get("state") or {}).get("instance_variables") or {}), has_ibm=bool((conf.get("ibm") or {}).get("module")),
+                ibm_inc=int((conf.get("ibm") or {}).get("inc", 0)), extra_forcing=list(conf["forcing"].get("extra_forcing") or []),
                 out_ivars=sorted(out["instance_variables"]), out_pvars=sorted(out.get("particle_variables") or {}),
                 outper=int(out["output_period"]), gridmod=base(conf["grid"].get("module", "")), forcemod=base(conf["forcing"].get("module", "")))
 
@@ -145,6 +164,15 @@ def run_spellings(sc):
         with open(os.path.join(work, "r.rls"), "w") as f:
             for r in sc["rows"]:
                 f.write(f"{r['mult']} {iso(r['t'])} {r['xf']!r} {r['yf']!r} {r['zf']!r}" + (f" {r['id']}" if fv["extracol"] else "") + "\n")
+        # an explicitly named grid file is a file of its own with twice the grid spacing: reading the grid from a forcing file instead changes the run
+        from netCDF4 import Dataset
+        shutil.copy(os.path.join(work, first_file(sc)), os.path.join(work, "grid_only.nc"))
+        with Dataset(os.path.join(work, "grid_only.nc"), "a") as g:
+            g.variables["pm"][:] = g.variables["pm"][:] * 0.5
+            g.variables["pn"][:] = g.variables["pn"][:] * 0.5
+        with open(os.path.join(work, "age_ibm.py"), "w") as f:
+            f.write("from ladim.ibm import IBM as _Base\n\n\nclass IBM(_Base):\n    def update(self):\n"
+                    "        st = self.modules['state']\n        st['age'] = st['age'] + self.opts['inc']\n")
         if sc.get("plugmod"):
             # a user grid/forcing module given by path: a ROMS grid with a narrower valid region.  "Omitting the grid section uses
             # the forcing module": the stock grid would keep particles alive longer
@@ -178,10 +206,11 @@ def run_spellings(sc):
             if err:
                 run = dict(ok=False, recs=[], idx=[], refs=[], pvrt=[], pvsrc=[], what=err)
             else:
-                files = decode_files(work, dict(hasscal=False), pattern=f"out_{kind}*.nc")
+                files = decode_files(work, dict(hasscal=bool(fv.get("ibm") and fv.get("xforce"))), pattern=f"out_{kind}*.nc")
                 for f_ in files:
                     for r in f_["recs"]:
-                        r["age"] = [0] * len(r["pid"])
+                        if not fv.get("ibm"):
+                            r["age"] = [0] * len(r["pid"])
                         r["farm"] = [0] * len(r["pid"])
                     f_["pv_src"] = _farmid(work, kind, f_)
                 run = flatten([dict(ev="files", files=files)])
@@ -226,6 +255,11 @@ def scenario(rng):
             base["grid_variant_in_later_files"] = True
     if rng.random() < 0.25:
         fv["diffusion"] = rng.choice([1, 2, 5])
+    fv["ibm"] = rng.random() < 0.4
+    fv["xforce"] = fv["ibm"] and rng.random() < 0.5
+    fv["v1files"] = rng.random() < 0.4
+    if fv["xforce"]:
+        base["hasscal"] = True
     base["fv"] = fv
     i1 = rng.randrange(max(6, base["imax"] - 3), base["imax"])
     j1 = rng.randrange(max(6, base["jmax"] - 3), base["jmax"])
@@ -247,7 +281,7 @@ def run(tier, seed):
     rep.add_tv("spellings-output", "PairTrace", scs, pairs, tlc.validate_traces("PairTrace", pairs, batch_events=400), family=FAMILY_P)
     rep.nontrivial = len({repr(sorted(s["fv"].items())) for s in scs})
     rep.rule = ("random feature vectors (discrete/continuous release, extra int column as particle variable, particle variables in the output, grid section explicit / "
-                "without file name / omitted, sub-rectangle, single or wildcard multi-file forcing, optional sections present-empty or omitted, EF/RK2/RK4, horizontal diffusion) over "
+                "without file name / omitted, sub-rectangle, single or wildcard multi-file forcing, optional sections present-empty or omitted, EF/RK2/RK4, horizontal diffusion, a user IBM with its own instance variable and option, scalar forcing as a further instance variable, version 1 file names in `files` or `gridforce`) over "
                 "random small scenarios with strong flows (particles reach the sub-rectangle boundary); non-trivial = distinct feature vectors")
     rep.assumptions = ["the three documents are written by the harness from one feature vector (TOML via a minimal writer)", "with diffusion on (a quarter of the feature vectors) the three spellings are compared as configurations only: the random walk makes outputs differ between any two runs"]
     return rep
